@@ -40,7 +40,7 @@ func (d gsm7Decoder) Transform(dst, src []byte, atEOF bool) (nDst, nSrc int, err
 		err = transform.ErrShortDst
 	} else {
 		decoded := buf.Bytes()
-		if n := len(decoded); n > 2 && (decoded[n-1] == cr || decoded[n-2] == cr) {
+		if n := len(septets); n%8 == 0 && septets[n-1] == cr {
 			nDst--
 		}
 		copy(dst, decoded)
